@@ -420,3 +420,44 @@ func VfC16_SharedObjects() {
 	vfAssert("C16.shared-objects.right-shared", r.Equal(l) == want)
 	vfAssert("C16.shared-objects.expected", want == (w1 == w2))
 }
+
+// VfC16_NameSpellings: identified structs are identified by name - by the
+// bytes of the name, whatever they are.  Two structs with the same body whose
+// names are a symbolic byte string s (1 or 2 bytes, any non-zero bytes) and a
+// decorated form of s (wrapped in quote characters, with a leading or trailing
+// quote, with a backslash in front, with a space appended): the structs, the
+// pointers to them (whose equality goes through printed names), and function
+// and array types over those pointers are all different, in both directions.
+//
+//vf:unwind 200
+//vf:shards 4
+func VfC16_NameSpellings() {
+	n := vfLen("n", 1, 2)
+	s := vfString("s", n)
+	for i := 0; i < len(s); i++ {
+		vfAssume(s[i] != 0)
+	}
+	var d string
+	switch vfChoice("decoration", 5) {
+	case 0:
+		d = "\"" + s + "\""
+	case 1:
+		d = "\"" + s
+	case 2:
+		d = s + "\""
+	case 3:
+		d = "\\" + s
+	default:
+		d = s + " "
+	}
+	a, b := NewStruct(I32, I64), NewStruct(I32, I64)
+	a.TypeName, b.TypeName = s, d
+	vfReach("C16.name-spellings")
+	vfAssert("C16.name-spellings.structs-differ", vfAnd(vfNot(a.Equal(b)), vfNot(b.Equal(a))))
+	pa, pb := NewPointer(a), NewPointer(b)
+	vfAssert("C16.name-spellings.pointers-differ", vfAnd(vfNot(pa.Equal(pb)), vfNot(pb.Equal(pa))))
+	fa, fb := NewFunc(Void, pa), NewFunc(Void, pb)
+	vfAssert("C16.name-spellings.functions-differ", vfAnd(vfNot(fa.Equal(fb)), vfNot(fb.Equal(fa))))
+	ppa, ppb := NewPointer(NewArray(2, pa)), NewPointer(NewArray(2, pb))
+	vfAssert("C16.name-spellings.nested-pointers-differ", vfAnd(vfNot(ppa.Equal(ppb)), vfNot(ppb.Equal(ppa))))
+}
